@@ -1,1 +1,159 @@
-//! C15 — (harnesses not written yet)
+//! C15 — reader results do not depend on what was called before.
+use crate::c13::valid_image;
+use crate::env::*;
+use crate::model::*;
+use crate::refcodec::*;
+use shapefile::record::{ConcreteReadableShape, ReadableShape, WritableShape};
+use shapefile::*;
+
+/// Operations of a history.
+#[derive(Clone, Copy)]
+pub enum Op {
+    /// new iterator, take j items (4 = until it ends)
+    Iter(usize),
+    /// read_nth_shape_as(i)
+    Nth(usize),
+    /// seek(k)
+    Seek(usize),
+    /// shape_count()
+    Count,
+}
+
+fn same_pt(p: &Point, m: &Model) -> bool {
+    beq(p.x, m.v[0][0]) && beq(p.y, m.v[0][1])
+}
+
+/// Runs `ops` on a reader over 3 Point records (symbolic payload, with index), checking every
+/// return value against the specification; then a final iteration that must yield exactly the
+/// records `exp_a` (or, when given, `exp_b`) in order and then end.
+pub fn history(ops: &[Op], exp_a: &[usize], exp_b: Option<&[usize]>) {
+    const N: usize = 192;
+    let n = 3;
+    let mut img = [0u8; N];
+    let mut idx = [0u8; N];
+    let pt = spec(&[]);
+    let (len, xlen, _, models) = valid_image::<Point, N>(&mut img, &mut idx, &[spec(&[]), spec(&[]), spec(&[])]);
+    let _ = pt;
+    let mut rd = ShapeReader::with_shx(MemSource::with_len(&img, len), MemSource::with_len(&idx, xlen));
+    match &mut rd {
+        Ok(rd) => {
+            let mut o = 0;
+            while o < ops.len() {
+                match ops[o] {
+                    Op::Count => {
+                        let c = rd.shape_count();
+                        assert!(matches!(c, Ok(k) if k == n), "shape_count changed");
+                        std::mem::forget(c);
+                    }
+                    Op::Nth(i) => {
+                        let item = rd.read_nth_shape_as::<Point>(i);
+                        match &item {
+                            Some(Ok(p)) => assert!(i < n && same_pt(p, &models[i]), "random access returned another record"),
+                            None => assert!(i >= n, "random access inside the file returned nothing"),
+                            Some(Err(_)) => assert!(false, "random access failed"),
+                        }
+                        std::mem::forget(item);
+                    }
+                    Op::Seek(k) => {
+                        let r = rd.seek(k);
+                        assert!(r.is_ok());
+                        std::mem::forget(r);
+                    }
+                    Op::Iter(j) => {
+                        // return values of the intermediate iteration are checked by the
+                        // harnesses whose final iteration it is; here only no-panic
+                        let mut it = rd.iter_shapes_as::<Point>();
+                        let mut t = 0;
+                        while t < j {
+                            let item = it.next();
+                            let end = item.is_none();
+                            std::mem::forget(item);
+                            if end {
+                                break;
+                            }
+                            t += 1;
+                        }
+                    }
+                }
+                o += 1;
+            }
+            // final iteration
+            let mut ok_a = true;
+            let mut ok_b = exp_b.is_some();
+            let eb: &[usize] = match exp_b {
+                Some(b) => b,
+                None => &[],
+            };
+            let mut it = rd.iter_shapes_as::<Point>();
+            let mut i = 0;
+            while i < 5 {
+                let item = it.next();
+                match &item {
+                    Some(Ok(p)) => {
+                        ok_a = ok_a && i < exp_a.len() && same_pt(p, &models[exp_a[i]]);
+                        ok_b = ok_b && i < eb.len() && same_pt(p, &models[eb[i]]);
+                    }
+                    Some(Err(_)) => {
+                        ok_a = false;
+                        ok_b = false;
+                    }
+                    None => {
+                        ok_a = ok_a && i >= exp_a.len();
+                        ok_b = ok_b && i >= eb.len();
+                    }
+                }
+                let end = item.is_none();
+                std::mem::forget(item);
+                if end {
+                    break;
+                }
+                i += 1;
+            }
+            assert!(ok_a || ok_b, "iteration yielded another sequence than the history allows (wrong record, error, or too many / too few items)");
+        }
+        Err(_) => assert!(false),
+    }
+    std::mem::forget(rd);
+    kani::cover!(true, "history executed");
+}
+
+macro_rules! hist {
+    ($name:ident, $ops:expr, $a:expr, $b:expr) => {
+        #[kani::proof]
+        #[kani::unwind(34)]
+        fn $name() {
+            history(&$ops, &$a, $b);
+        }
+    };
+}
+use Op::*;
+// H: tier=quick; unwind=34; sym=payload of 3 Points; history=[] (fresh reader); asserts=iteration yields records 0,1,2 then ends
+hist!(c15_q_fresh, [], [0, 1, 2], None);
+// H: tier=quick; unwind=34; sym=payload; history=[count, nth(2), nth(0), nth(3), count]; asserts=each random access returns its record (None past the end), count unchanged; then iteration yields 0,1,2 and ends
+hist!(c15_q_random_access_then_iterate, [Count, Nth(2), Nth(0), Nth(3), Count], [0, 1, 2], None);
+// H: tier=quick; unwind=34; sym=payload; history=[seek(0)]; asserts=iteration yields 0,1,2 and ends
+hist!(c15_q_seek0_then_iterate, [Seek(0)], [0, 1, 2], None);
+// H: tier=quick; unwind=34; sym=payload; history=[seek(1)]; asserts=iteration yields exactly 1,2 and ends
+hist!(c15_q_seek1_then_iterate, [Seek(1)], [1, 2], None);
+// H: tier=quick; unwind=34; sym=payload; history=[seek(2), nth(0)]; asserts=after a successful random access iteration starts at 0: 0,1,2
+hist!(c15_q_seek2_nth0_then_iterate, [Seek(2), Nth(0)], [0, 1, 2], None);
+// H: tier=quick; unwind=34; sym=payload; history=[iterate 1 item]; asserts=a further iteration yields 1,2 or 0,1,2, then ends
+hist!(c15_q_iter1_then_iterate, [Iter(1)], [1, 2], Some(&[0, 1, 2]));
+// H: tier=quick; unwind=34; sym=payload; history=[iterate all]; asserts=a further iteration yields nothing or 0,1,2
+hist!(c15_q_iterall_then_iterate, [Iter(4)], [], Some(&[0, 1, 2]));
+// H: tier=quick; unwind=34; sym=payload; history=[iterate 2, nth(1)]; asserts=random access returns record 1; iteration then yields 0,1,2
+hist!(c15_q_iter2_nth1_then_iterate, [Iter(2), Nth(1)], [0, 1, 2], None);
+// H: tier=thorough; unwind=34; sym=payload; history=[seek(3)] (one past the last); asserts=iteration yields nothing
+hist!(c15_t_seek3_then_iterate, [Seek(3)], [], None);
+// H: tier=thorough; unwind=34; sym=payload; history=[seek(2)]; asserts=iteration yields 2 and ends
+hist!(c15_t_seek2_then_iterate, [Seek(2)], [2], None);
+// H: tier=thorough; unwind=34; sym=payload; history=[iterate 2, seek(0)]; asserts=iteration yields 0,1,2
+hist!(c15_t_iter2_seek0_then_iterate, [Iter(2), Seek(0)], [0, 1, 2], None);
+// H: tier=thorough; unwind=34; sym=payload; history=[iterate 0 items]; asserts=a further iteration yields 0,1,2
+hist!(c15_t_iter0_then_iterate, [Iter(0)], [0, 1, 2], None);
+// H: tier=thorough; unwind=34; sym=payload; history=[nth(1), iterate 1]; asserts=a further iteration yields 1,2 or 0,1,2
+hist!(c15_t_nth1_iter1_then_iterate, [Nth(1), Iter(1)], [1, 2], Some(&[0, 1, 2]));
+// H: tier=thorough; unwind=34; sym=payload; history=[seek(1), iterate 1]; asserts=a further iteration yields 2 or 0,1,2
+hist!(c15_t_seek1_iter1_then_iterate, [Seek(1), Iter(1)], [2], Some(&[0, 1, 2]));
+// H: tier=thorough; unwind=34; sym=payload; history=[iterate 2]; asserts=a further iteration yields 2 or 0,1,2
+hist!(c15_t_iter2_then_iterate, [Iter(2)], [2], Some(&[0, 1, 2]));
